@@ -9,7 +9,7 @@ import re
 from vf.core import Result
 from vf import harness as H
 from vf import model as M
-from vf.props.c05 import site_scope, use_closure, use_paths
+from vf.props.c05 import site_scope, use_closure, use_paths, whole_alias_names, typed_via_whole_alias
 
 PROP = "C12"
 LEVEL = "exploration"
@@ -138,6 +138,10 @@ def run_case(ctx, i, rng):
                             key = "use-tree:completion-of-renamed-entities"
                         elif any(vis_here.get(o.ent.tdef.name) is not o.ent.tdef for o in base):
                             key = "member:declared-type-not-visible-under-its-own-name-at-site"
+                        elif any(o.name.lower() in whole_alias_names(w, sc) or typed_via_whole_alias(o.ent, whole_alias_names(w, sc)) for o in base):
+                            # the object, its declared type or an ancestor type is reached through a `use m, local => remote` alias that is not
+                            # visible through other modules (C05 finding of that name)
+                            key = "use-tree:rename-without-only:alias-not-visible-through-other-modules"
                         elif not Rset and any(getattr(o.ent, "tname", None) and o.ent.tname.lower() != o.ent.tdef.name.lower() and o.ent.tdef.module() is not None
                                               and use_paths(o.ent.scope, o.ent.tdef.module()) >= 2 for o in base):
                             # the object is declared TYPE(alias) and that alias is one the USE tree cannot resolve (C05 finding of this name)
